@@ -252,6 +252,15 @@ fn child_curve<G: AffineRepr>(ch: &mut Child, curve: &'static str, seed: u64, th
             }
         }
     }
+    {
+        let id = format!("batch|{}|empty", curve);
+        if ch.take(&id) {
+            let none: [(&Program, &[G], &R1CSProof<G>); 0] = [];
+            if let Some((r, _, _)) = ch.call(&id, "batch_verify[]", 0, || batch::<G>(&env, &none, &env.bp, 1)) {
+                ch.hit(format!("empty-batch:{}", res_name(&r)));
+            }
+        }
+    }
     // ---- part 2: byte strings
     let mut rng = R::new(seed ^ 0xB17E5);
     for (fi, fx) in fxs.iter().enumerate() {
